@@ -7,7 +7,6 @@ import (
 	"math/rand"
 	"strings"
 	"testing"
-	"time"
 
 	"github.com/tochemey/olric/events"
 
@@ -78,12 +77,13 @@ type c34Epoch struct {
 }
 
 type c34History struct {
-	Peers     []string
-	Delivered []c34Note
-	Epochs    map[uint64]*c34Epoch
-	LeftFact  map[int64]int    // UID of a left notification -> fact index of that departure
-	LeftNode  map[int64]string // UID of a left notification -> node
-	Perturb   string
+	Peers      []string
+	Delivered  []c34Note
+	Epochs     map[uint64]*c34Epoch
+	LeftFact   map[int64]int    // UID of a left notification -> fact index of that departure
+	LeftNode   map[int64]string // UID of a left notification -> node
+	Departures map[string][]int // node -> fact indexes of its true departures, ascending
+	Perturb    string
 }
 
 func (h *c34History) text() string {
@@ -98,7 +98,7 @@ func c34Peer(i int) string { return fmt.Sprintf("10.0.0.%d:3322", i+1) }
 
 // c34Generate builds a true timeline and the perturbed delivery of its notifications.
 func c34Generate(rng *rand.Rand) *c34History {
-	h := &c34History{Epochs: map[uint64]*c34Epoch{}, LeftFact: map[int64]int{}, LeftNode: map[int64]string{}}
+	h := &c34History{Epochs: map[uint64]*c34Epoch{}, LeftFact: map[int64]int{}, LeftNode: map[int64]string{}, Departures: map[string][]int{}}
 	np := 1 + rng.Intn(3)
 	alive := map[string]bool{}
 	for i := 0; i < np; i++ {
@@ -158,6 +158,7 @@ func c34Generate(rng *rand.Rand) *c34History {
 			u := nextUID()
 			truth = append(truth, c34Note{Kind: "left", Node: c34Self, UID: u, Fact: f})
 			h.LeftFact[u], h.LeftNode[u] = f, c34Self
+			h.Departures[c34Self] = append(h.Departures[c34Self], f)
 			if rng.Intn(2) == 0 {
 				newEpoch(f, rebalanceReasonNodeLeft, c34Self)
 			}
@@ -168,6 +169,7 @@ func c34Generate(rng *rand.Rand) *c34History {
 			u := nextUID()
 			truth = append(truth, c34Note{Kind: "left", Node: p, UID: u, Fact: f})
 			h.LeftFact[u], h.LeftNode[u] = f, p
+			h.Departures[p] = append(h.Departures[p], f)
 			if rng.Intn(6) != 0 {
 				newEpoch(f, rebalanceReasonNodeLeft, p)
 			}
@@ -286,14 +288,11 @@ type c34Obs struct {
 // c34Run feeds one history to a fresh *cluster and judges the (inputs, outputs) trace.
 func c34Run(t *testing.T, r *verifrt.Run, h *c34History) c34Obs {
 	var obs c34Obs
-	c34t0 := time.Now()
-	defer func() { r.Count("tmp_total_ns", int64(time.Since(c34t0))) }()
 	cl := New("c34", nil, &discovery.Node{Name: "self", Host: "10.0.0.100", PeersPort: 3322, DiscoveryPort: 3320, RemotingPort: 3323}, WithLogger(log.DiscardLogger)).(*cluster)
 	if cl.node.PeersAddress() != c34Self {
 		t.Fatalf("self address mismatch: %s", cl.node.PeersAddress())
 	}
 	evch := cl.Events()
-	r.Count("tmp_new_ns", int64(time.Since(c34t0)))
 
 	var outs []c34Out
 	viol := func(sig string, extra map[string]any) {
@@ -309,6 +308,7 @@ func c34Run(t *testing.T, r *verifrt.Run, h *c34History) c34Obs {
 	joinDelivered := map[string]bool{}
 	// at-most-once automata
 	leftOpen := map[string]bool{} // a NodeLeft(n) was emitted and nothing reset it since
+	leftCount := map[string]int{} // NodeLeft(n) outputs so far
 	joinOpen := map[string]bool{}
 
 	for step, n := range h.Delivered {
@@ -316,18 +316,13 @@ func c34Run(t *testing.T, r *verifrt.Run, h *c34History) c34Obs {
 		case "timeout":
 			cl.emitOverdueNodeLeft(n.Node)
 		default:
-			c34t1 := time.Now()
 			payload, err := c34Payload(n)
-			r.Count("tmp_encode_ns", int64(time.Since(c34t1)))
-			c34t2 := time.Now()
-			defer func() {}()
 			if err != nil {
 				t.Fatalf("encode: %v", err)
 			}
 			if err := cl.handleClusterEvent(payload); err != nil {
 				t.Fatalf("handleClusterEvent(%s): %v", payload, err)
 			}
-			r.Count("tmp_handle_ns", int64(time.Since(c34t2)))
 		}
 		// the input itself acts on the oracle state before its outputs are judged
 		switch n.Kind {
@@ -362,15 +357,20 @@ func c34Run(t *testing.T, r *verifrt.Run, h *c34History) c34Obs {
 						viol("NodeLeft-without-departure-notification", map[string]any{"step": step, "node": p.Address, "input": n.String()})
 						continue
 					}
-					// which departure is reported: the one whose timestamp it carries, else
-					// (most lenient) the earliest delivered one
-					dep := leftDelivered[p.Address][0]
-					if node, ok := h.LeftNode[o.UID]; ok && node == p.Address {
-						dep = o.UID
-					} else {
-						r.Count("nodeleft_timestamp_not_of_a_delivered_notification", 1)
+					// which departure is reported: the k-th NodeLeft(n) stands for the k-th true
+					// departure of n. Notifications of different departures of one node are
+					// indistinguishable to any observer, so under reordering the report is
+					// credited to the earliest departure it can stand for (most lenient).
+					deps := h.Departures[p.Address]
+					k := leftCount[p.Address]
+					leftCount[p.Address]++
+					if k >= len(deps) {
+						k = len(deps) - 1
 					}
-					depFact := h.LeftFact[dep]
+					depFact := deps[k]
+					if node, ok := h.LeftNode[o.UID]; !ok || node != p.Address {
+						r.Count("nodeleft_timestamp_not_of_a_left_notification", 1)
+					}
 					if n.Kind == "timeout" && n.Node == p.Address {
 						obs.ByTimeout++
 						continue
